@@ -118,6 +118,54 @@ def drive(rec):
             except Exception as e:
                 t["queries"].append({"kind": kind, "centre": [[0, 0, 0]], "excl": True, "exc": type(e).__name__,
                                      "off": False, "rows": []})
+        elif kind == "molecule_environment_given":
+            # the molecule is handed over by the caller with coordinates that are not bit-identical to the crystal's own (read
+            # back from a file, single precision, nudged): its own sites are still recognised - within the default threshold,
+            # or within the threshold the caller states for a coarser copy - and the neighbours are those of the sites
+            out = {"kind": kind, "centre": [[0, 0, 0]], "excl": True, "exc": "", "off": False, "rows": [], "k": rec["k"], "m": 0,
+                   "dm": 0, "thr_um": 1000}
+            try:
+                from chmpy.core import Molecule
+                mols = cr.symmetry_unique_molecules()
+                m0 = mols[q["mol_idx"] % len(mols)]
+                centre, o1 = rows_from_positions(cr, n, m0.atomic_numbers, m0.positions)
+                cpts = np.array([c["p"] for c in centre], dtype=np.int64)
+                ucr, _, _ = xtal.project_rows(cr.unit_cell_atoms(), n, None, u)
+                ucp = np.array([r["p"] for r in ucr], dtype=np.int64)
+                K = rec["K"]
+                cells = np.array([(a, b, c) for a in range(-K, K + 1) for b in range(-K, K + 1) for c in range(-K, K + 1)], dtype=np.int64) * n
+                allp = (ucp[:, None, :] + cells[None, :, :]).reshape(-1, 3)
+                d2 = np.unique(np.concatenate([xtal._gdot(rec["gram"], allp - c[None, :]) for c in cpts]))
+                dm, thr = (q["dm"], q.get("thr"))
+                spacing2 = (u / n) ** 2
+                m = int(math.ceil((26.0 * dm * 1e-6 + (dm * 1e-6) ** 2) / spacing2)) + 1
+                kq = None
+                for k2 in range(rec["k"] - m - 1, max(rec["k"] // 4, 2), -1):
+                    lo, hi = k2 - m, k2 + 1 + m
+                    i0 = np.searchsorted(d2, lo)
+                    if i0 >= len(d2) or d2[i0] > hi:
+                        kq = k2
+                        break
+                if kq is None:
+                    raise LookupError("no gap")
+                rq = math.sqrt(kq + 0.5) * u / n
+                gen = np.random.default_rng(q["seed"])
+                dirs = gen.normal(size=(len(cpts), 3))
+                dirs /= np.linalg.norm(dirs, axis=1)[:, None]
+                pos2 = np.asarray(m0.positions, dtype=float) + dirs * (dm * 1e-6) * gen.uniform(0.5, 1.0, size=(len(cpts), 1))
+                if q.get("f32"):
+                    pos2 = pos2.astype(np.float32).astype(np.float64)
+                m2 = Molecule.from_arrays(np.asarray(m0.atomic_numbers), pos2)
+                kw = {} if thr is None else {"threshold": thr}
+                _, els, pos = cr.molecule_environment(m2, radius=rq, **kw)
+                rows, o2 = rows_from_positions(cr, n, els, pos)
+                out.update(centre=[c["p"] for c in centre], off=bool(o1 or o2), rows=rows, k=int(kq), m=int(m), dm=int(dm),
+                           thr_um=1000 if thr is None else int(round(thr * 1e6)))
+            except LookupError:
+                continue                                   # no radius with a clear shell below the trace's radius: not asked
+            except Exception as e:
+                out["exc"] = type(e).__name__
+            t["queries"].append(out)
         elif kind == "molecular_shell":
             out = {"kind": kind, "centre": [[0, 0, 0]], "mols": [], "exc": "", "off": False}
             try:
@@ -280,7 +328,9 @@ def gen(args):
             return none
         rec["radius"], rec["k"], rec["K"] = ch
         rec["queries"] = [{"kind": "molecule_environments"}, {"kind": "molecular_shell", "mol_idx": 0},
-                          {"kind": "atom_group_surroundings", "atoms": list(range(len(rec["asym"])))}]
+                          {"kind": "atom_group_surroundings", "atoms": list(range(len(rec["asym"])))},
+                          {"kind": "molecule_environment_given", "mol_idx": 0, "dm": 300, "seed": seed, "f32": True},
+                          {"kind": "molecule_environment_given", "mol_idx": 0, "dm": 4000, "thr": 0.2, "seed": seed + 1}]
         return rec
     if mode == "mol":
         rec = xtal.gen_molecular(rng, row, nmols=rng.choice([1, 1, 2]), sizes=(2, 3, 4), vol_per_atom=rng.choice([24.0, 32.0]),
@@ -315,7 +365,9 @@ def gen(args):
             return none
         rec["radius"], rec["k"], rec["K"] = ch
         rec["queries"] = [{"kind": "molecule_environments"}, {"kind": "atom_group_surroundings", "atoms": [0, 1, 2]},
-                          {"kind": "atomic_surroundings"}, {"kind": "molecular_shell", "mol_idx": 0}]
+                          {"kind": "atomic_surroundings"}, {"kind": "molecular_shell", "mol_idx": 0},
+                          {"kind": "molecule_environment_given", "mol_idx": 0, "dm": 200, "seed": seed, "f32": seed % 2 == 0},
+                          {"kind": "molecule_environment_given", "mol_idx": 0, "dm": 3000, "thr": 0.25, "seed": seed + 1}]
         if rec["radius"] <= 5.0:
             rec["queries"].append({"kind": "symmetry_unique_dimers"})
         return rec
